@@ -55,9 +55,18 @@ func loadSpecLib(dir string) (*SpecLib, error) {
 	files, _ := filepath.Glob(filepath.Join(dir, "*.smt2"))
 	sort.Slice(files, func(i, j int) bool {
 		rank := func(f string) int {
+			// definitions must precede their uses: fixed order for the files that others build on
 			switch filepath.Base(f) {
 			case "prelude.smt2":
 				return 0
+			case "merge.smt2":
+				return 1
+			case "marker.smt2":
+				return 2
+			case "output.smt2":
+				return 3
+			case "plain.smt2":
+				return 4
 			case "axioms.smt2":
 				return 8
 			case "lemmas.smt2":
